@@ -238,10 +238,34 @@ theorem colNames_length (cn : Nat → String) : ∀ (m idx : Nat), (colNames cn 
   | 0, _ => rfl
   | m + 1, idx => by simp [colNames, colNames_length cn m (idx + 1)]
 
+theorem mem_colNames (cn : Nat → String) : ∀ (m idx k : Nat), idx ≤ k → k < idx + m → cn k ∈ colNames cn m idx
+  | 0, idx, k, h1, h2 => by omega
+  | m + 1, idx, k, h1, h2 => by
+    simp only [colNames, List.mem_cons]
+    by_cases e : k = idx
+    · exact Or.inl (by rw [e])
+    · exact Or.inr (mem_colNames cn m (idx + 1) k (by omega) (by omega))
+
+/-- the token table `compile` emits for element-level rows binds the chain's token -/
+theorem tokChain_elemRows (B : Backend) (nm cn : Nat → String) (c : Chain) (cols : List (String × PE))
+    (N : Num D) (ev : Event D) (K : CExpr → Option Ty → List Stmt)
+    (hK : (compile B nm cn (.elemRows c cols)).tokens = banksOf B (compChain B nm c 0 K).stmts [c.bank]) :
+    TokChain B nm ((compile B nm cn (.elemRows c cols)).ctx N ev) c 0 := by
+  intro ht
+  have h := banksOf_chain B ht nm c 0 K [] []
+  rw [List.append_nil] at h
+  have htoks : ((compile B nm cn (.elemRows c cols)).ctx N ev).tokens = chainToks B nm c 0 := by
+    simp only [Package.ctx]; rw [hK, h]; simp [banksOf]
+  have := tokenBank_of_mem ((compile B nm cn (.elemRows c cols)).ctx N ev) (by rw [htoks]; simp [chainToks])
+    (nm (0 + 2), (B.collType c.coll).getD "?", c.bank) (by rw [htoks]; simp [chainToks])
+  exact this
+
 /-- **C01 (element-level rows)** — for every chain, every list of pure column expressions, every
 event and every class state in which the column variables are declared: if the query denotes
-`rows` on the event, the package the translator model emits writes exactly `rows`. -/
-theorem elemRows_correct (B : Backend) (hB : BackendOK B) (nm cn : Nat → String)
+`rows` on the event, the package the translator model emits writes exactly `rows`, and the class
+state it leaves behind again has the column variables declared (the precondition of the next
+event). All three backends: on the token idiom the table `compile` emits binds the chain's token. -/
+theorem elemRows_correct_post (B : Backend) (hB : BackendBase B) (nm cn : Nat → String)
     (hinj : ∀ i j, nm i = nm j → i = j) (hcinj : ∀ i j, cn i = cn j → i = j)
     (hres : ∀ j, nm j ≠ "result") (hcres : ∀ k, cn k ≠ "result") (hdisj : ∀ j k, nm j ≠ cn k)
     (QC : QCtx D) (hcollT : ∀ name, B.collType name = QC.collType name)
@@ -253,7 +277,8 @@ theorem elemRows_correct (B : Backend) (hB : BackendOK B) (nm cn : Nat → Strin
     (σc : Env D) (hσ : ∀ k, k < cols.length → (σc (cn k)).isSome = true)
     (rows : List (List (Val D)))
     (hden : denoteRows QC (FQ.toQuery (.elemRows c cols)) = .ok rows) :
-    ∃ σ', runEvent (compile B nm cn (.elemRows c cols)) QC.N σc QC.ev = .ok (rows, σ') := by
+    ∃ σ', runEvent (compile B nm cn (.elemRows c cols)) QC.N σc QC.ev = .ok (rows, σ') ∧
+      ∀ k, k < cols.length → (σ' (cn k)).isSome = true := by
   obtain ⟨ws, hchain, hrows⟩ := elemRows_denote QC c cols rows hden
   obtain ⟨cty, l, hct, hfind, hel⟩ := chainQ_ok QC _ "e" c ws hchain
   have hcoll : B.collType c.coll = some cty := by rw [hcollT]; exact hct
@@ -278,7 +303,8 @@ theorem elemRows_correct (B : Backend) (hB : BackendOK B) (nm cn : Nat → Strin
     | .ok row => .ok (a ++ [row])
     | .error e => .error e
   have hmt' := hmt cty l hfind
-  obtain ⟨s', hex, hP'⟩ := compChain_correct (β := List (List (Val D))) C QC rfl B hB nm hinj hres c 0 K cty l ws hcoll hfind hwt
+  have htok : TokChain B nm C c 0 := tokChain_elemRows B nm cn c cols QC.N QC.ev K rfl
+  obtain ⟨s', hex, hP'⟩ := compChain_correct_tok (β := List (List (Val D))) C QC rfl B hB nm hinj hres c 0 htok K cty l ws hcoll hfind hwt
     (fun v hv => (hmt' v hv).1) Pinv g (fun v => ∀ p ∈ cols, MethTyped v (methsPE p.2)) (fun v hv => (hmt' v hv).2)
     (by
       intro s t acc hPs hr hfr
@@ -330,14 +356,43 @@ theorem elemRows_correct (B : Backend) (hB : BackendOK B) (nm cn : Nat → Strin
     ⟨rfl, fun k hk => by
       have : cn k ≠ nm 0 := fun e => hdisj 0 k e.symm
       simp only [s1, Env.declare, this, if_false]; exact hσ k hk⟩
-  refine ⟨keepClass P.classVars s'.env, ?_⟩
-  simp only [runEvent]
-  rw [show P.body = .block ((compChain B nm c 0 K).decls ++ (compChain B nm c 0 K).stmts) from hbody]
-  simp only [exec]
-  rw [execs_append, hdecl]
-  simp only []
-  rw [hex]
-  simp only [hP'.1, List.nil_append]
-  rfl
+  refine ⟨keepClass P.classVars s'.env, ?_, ?_⟩
+  · simp only [runEvent]
+    rw [show P.body = .block ((compChain B nm c 0 K).decls ++ (compChain B nm c 0 K).stmts) from hbody]
+    simp only [exec]
+    rw [execs_append, hdecl]
+    simp only []
+    rw [hex]
+    simp only [hP'.1, List.nil_append]
+    rfl
+  · intro k hk
+    have hmem : cn k ∈ P.classVars.map (·.2) := by
+      have h1 : cn k ∈ (colVars cn (chainTy none c.steps) pes 0).map (·.2) := by
+        rw [colVars_names]; exact mem_colNames cn _ 0 k (Nat.zero_le _) (by simpa [pes] using hk)
+      simp only [P, compile, List.map_append, List.mem_append]
+      exact Or.inr h1
+    have hany : P.classVars.any (fun p => decide (p.2 = cn k)) = true := by
+      obtain ⟨p, hp, hpe⟩ := List.mem_map.1 hmem
+      simp only [List.any_eq_true, decide_eq_true_eq]
+      exact ⟨p, hp, hpe⟩
+    simp only [keepClass, hany, if_true]
+    exact hP'.2 k hk
+
+/-- `elemRows_correct_post` without the post-state (the statement `C01.elemRows_correct_partial` wraps). -/
+theorem elemRows_correct (B : Backend) (hB : BackendOK B) (nm cn : Nat → String)
+    (hinj : ∀ i j, nm i = nm j → i = j) (hcinj : ∀ i j, cn i = cn j → i = j)
+    (hres : ∀ j, nm j ≠ "result") (hcres : ∀ k, cn k ≠ "result") (hdisj : ∀ j k, nm j ≠ cn k)
+    (QC : QCtx D) (hcollT : ∀ name, B.collType name = QC.collType name)
+    (c : Chain) (cols : List (String × PE))
+    (hwt : wtSteps none c.steps = true)
+    (hwtc : ∀ p ∈ cols, wtPE (chainTy none c.steps) p.2 = true)
+    (hmt : ∀ cty l, QC.ev.find c.bank = some (cty, .vec l) →
+        ∀ v ∈ l, MethTyped v (methsSteps c.steps) ∧ ∀ p ∈ cols, MethTyped v (methsPE p.2))
+    (σc : Env D) (hσ : ∀ k, k < cols.length → (σc (cn k)).isSome = true)
+    (rows : List (List (Val D)))
+    (hden : denoteRows QC (FQ.toQuery (.elemRows c cols)) = .ok rows) :
+    ∃ σ', runEvent (compile B nm cn (.elemRows c cols)) QC.N σc QC.ev = .ok (rows, σ') := by
+  obtain ⟨σ', h, _⟩ := elemRows_correct_post B hB.base nm cn hinj hcinj hres hcres hdisj QC hcollT c cols hwt hwtc hmt σc hσ rows hden
+  exact ⟨σ', h⟩
 
 end FaxVerif.Gen
